@@ -15,6 +15,8 @@
 
 #include <algorithm>
 #include <cmath>
+#include <cstdio>
+#include <cstdlib>
 #include <cstring>
 #include <limits>
 #include <memory>
@@ -579,6 +581,37 @@ namespace simpl
     std::vector<Outcome> outs;
     for (auto& c : cfgs)
       outs.push_back(run(m, c, pb));
+    // What "up to floating-point rounding" means for THIS problem is measured, not assumed: the first configuration is
+    // run again with every initial concentration and rate constant moved to the next representable number.  The
+    // change this one-ulp perturbation of the inputs makes to the result is the rounding sensitivity of the problem
+    // (conditioning of the linear systems, cancellation, the controller's amplification); configurations may differ by
+    // a multiple of it.
+    double natural = 0;
+    bool natural_same_history = true;
+    if (cfgs.size() > 1 && outs[0].error.empty())
+    {
+      Problem pbn = pb;
+      for (auto& v : pbn.y0)
+        if (std::isfinite(v))
+          v = std::nextafter(v, std::numeric_limits<double>::infinity());
+      for (auto& v : pbn.k)
+        if (std::isfinite(v))
+          v = std::nextafter(v, std::numeric_limits<double>::infinity());
+      Outcome on = run(m, cfgs[0], pbn);
+      if (on.error.empty() && on.y.size() == outs[0].y.size() && on.results.size() == outs[0].results.size())
+      {
+        for (std::size_t q = 0; q < on.y.size(); ++q)
+          if (std::isfinite(on.y[q]) && std::isfinite(outs[0].y[q]))
+            natural = std::max(natural, std::fabs(on.y[q] - outs[0].y[q]));
+        for (std::size_t q = 0; q < on.results.size(); ++q)
+          if (on.results[q].stats_.number_of_steps_ != outs[0].results[q].stats_.number_of_steps_ ||
+              on.results[q].stats_.accepted_ != outs[0].results[q].stats_.accepted_)
+            natural_same_history = false;
+      }
+      char nb[64];
+      std::snprintf(nb, sizeof nb, "NOTE_ONE_ULP_INPUT_SENSITIVITY=%.3g", natural);
+      out.tok(nb);
+    }
     for (std::size_t i = 0; i < outs.size(); ++i)
     {
       const auto& o = outs[i];
@@ -715,6 +748,20 @@ namespace simpl
           }
         }
         bool conc = close(outs[0].y, outs[i].y, 1e-7, 1e-12);
+        if (!conc && natural > 0 && outs[0].y.size() == outs[i].y.size())
+        {
+          // ... or by a modest multiple of what a one-ulp change of the inputs does to this very problem
+          conc = true;
+          for (std::size_t q = 0; q < outs[0].y.size(); ++q)
+          {
+            const double a = outs[0].y[q], b = outs[i].y[q];
+            if (!(std::fabs(a - b) <= 100.0 * natural) && !(std::isnan(a) && std::isnan(b)) && a != b)
+              conc = false;
+          }
+          if (conc)
+            out.tok("NOTE_CONFIGS_COMPARED_AT_MEASURED_ROUNDING_SENSITIVITY");
+        }
+        (void)natural_same_history;
         if (!conc && !same_history && outs[0].y.size() == outs[i].y.size() && outs[0].atol.size() == ns)
         {
           conc = true;
@@ -741,6 +788,9 @@ namespace simpl
           char buf[64];
           std::snprintf(buf, sizeof buf, "NOTE_MAX_RELATIVE_DIFFERENCE=%.3g", worst);
           out.tok(buf);
+          if (std::getenv("VERIF_DEBUG"))
+            for (std::size_t q = 0; q < outs[0].y.size() && q < outs[i].y.size(); ++q)
+              std::fprintf(stderr, "cfg %zu elem %zu: %.17g %.17g\n", i, q, outs[0].y[q], outs[i].y[q]);
         }
         if (!conc && !both_converged)
           out.tok("NOTE_CONFIGS_NOT_COMPARED_EARLY_STOP");
